@@ -211,6 +211,9 @@ func (self *ReplicationBufferQueue) AddPoll(cursor *ReplicationBufferQueueCursor
 	self.glock.Lock()
 	self.pollCount++
 	currentItem := cursor.currentItem
+	if currentItem != nil && (currentItem.pollCount == 0xffffffff || currentItem.seq != cursor.seq) {
+		currentItem = nil
+	}
 	for currentItem != nil {
 		atomic.AddUint32(&currentItem.pollCount, 1)
 		currentItem = currentItem.nextItem
